@@ -105,7 +105,7 @@ def case_history(ctx, case):
     def code(p, salt):
         return p[0] + 10 * p[1] + 100 * p[2] + 1000 * salt
 
-    names = [f'c{j}' for j in range(6)] + ['rain fall', 'slope']
+    names = ['c1', 'c10', 'c2', 'food', 'food_max', 'rain', 'rainfall', 'slope', 'p', 'o', 's', 'po', 'x pos']   # overlapping names on purpose
     for step in range(rng.randint(5, 20)):
         x = rng.random()
         free = [n for n in names if n not in shadow]
